@@ -1,6 +1,6 @@
 """Property table: which scenarios decide which property, run counts per tier, evidence rule text."""
 
-DETERMINISM_SCNS = ["C03", "C04", "C05", "C02I", "C17R", "C13C"]
+DETERMINISM_SCNS = ["C03", "C04", "C05", "C02I", "C17R", "C13C", "C01L", "C02T"]
 
 FP = ("distinct = distinct executed-schedule fingerprints (hash of the sequence of released yield sites / delivered events, "
       "without times)")
